@@ -44,6 +44,8 @@ def eq_val(I, result, spec):
         return z3.BoolVal(False) if b is None else b == spec
     if isinstance(result, Z) and result.e.sort() == spec.sort():
         return result.e == spec
+    if isinstance(result, Z) and I.sort_name(result) == 'OptStr' and spec.sort() == z3.StringSort():
+        return result.e == I.w.OptStr.SomeS(spec)
     if isinstance(result, str) and spec.sort() == z3.StringSort():
         return z3.StringVal(result) == spec
     if isinstance(result, int) and not isinstance(result, bool) and spec.sort() == z3.IntSort():
